@@ -212,13 +212,57 @@ def simple_value(ai):
     return box['v']
 
 
+def full_value(ai):
+    """The value that fills the registered format completely (every optional part present, maximum lengths)."""
+    p = ais()[ai]
+    fmt, typ = p['format'], p['type']
+    if ai in ('01', '02'):
+        return '00000000000017', '00000000000017'
+    if ai == '8007':
+        return IBANS[-1], IBANS[-1]
+    if typ == 'str':
+        out = ''
+        for kind, var, k, opt in components(fmt):
+            out += '-' if kind == '-' else alphabet(kind, '')[1] * k
+        return out, out
+    if typ == 'int':
+        k = components(fmt)[0][2]
+        return '9' * k, int('9' * k)
+    if typ == 'decimal':
+        comps = components(fmt)
+        pre = '978' if len(comps) == 2 else ''
+        k = comps[-1][2]
+        digs = '1' * k
+        return '2' + pre + digs, ((pre, decimal.Decimal(digs[:-2] + '.' + digs[-2:])) if pre else decimal.Decimal(digs[:-2] + '.' + digs[-2:]))
+    if typ == 'date':
+        d = datetime.date(2024, 2, 29)
+        if fmt == 'N6':
+            return '240229', d
+        if fmt in ('N6[+N6]', 'N6..12'):
+            return '240229240301', (d, datetime.date(2024, 3, 1))
+        if fmt == 'N10' or fmt in ('N6[+N4]', 'N6+N..4', 'N6[+N..4]'):
+            return '2402291234', datetime.datetime(2024, 2, 29, 12, 34)
+        if fmt in ('N8[+N..4]', 'N8+N..4'):
+            return '240229123456', datetime.datetime(2024, 2, 29, 12, 34, 56)
+    raise core.HarnessError('GS1 format not understood by the model: %r / %r' % (fmt, typ))
+
+
 def consumer_witness(ai_lo, props):
-    """C11: the AI can be encoded and decoded, with and without separator."""
+    """C11: the AI can be encoded and decoded, with and without separator, for a drawn value and for the value that
+    fills the registered format completely."""
     m = core.mod('gs1_128')
     try:
-        enc, val = simple_value(ai_lo)
+        cands = [simple_value(ai_lo), full_value(ai_lo)]
     except core.HarnessError as e:
         return ('consumer:gs1-format-not-understood', str(e))
+    for enc, val in cands:
+        bad = _roundtrip(m, ai_lo, enc, val)
+        if bad:
+            return bad
+    return None
+
+
+def _roundtrip(m, ai_lo, enc, val):
     for sep in ('', '|'):
         r = core.out(m.encode, {ai_lo: val}, sep)
         if r[0] != 'ok':
